@@ -61,6 +61,13 @@ ASSUMPTIONS = [
     '(C10/C12 domain) for which a simulator has no sound oracle',
 ]
 RESERVED = (b'pandas', b'PANDAS_ATTRS')
+# written by parquet-mr, parquet-cpp / arrow, impala, parquet-rs, Parquet.Net
+# (not nation.dict.parquet: reading it fails one time in six with an index out
+# of range that depends on heap contents - C03/C12 matter, and not repeatable)
+FOREIGN = ('test-null.parquet', 'mr_times.parq', 'decimals.parquet',
+           'datapage_v2.snappy.parquet', 'gzip-nation.impala.parquet',
+           'test-timezone.parquet', 'nested1.parquet',
+           'metas.parq', 'repeated_no_annotation.parquet')
 TEXTS = ['', 'a', 'v', 'Zürich', '北京', 'x' * 7, 'y' * 8, 'k=v', '{"a": 1}']
 
 
@@ -75,9 +82,21 @@ def enc(x):
     return ['b', bytes(x).hex()]
 
 
+class Tag(str):
+    """A str subclass whose str() is not its characters (what a
+    `class Stage(str, Enum)` member is): stored text = the characters."""
+
+    def __str__(self):
+        return 'Tag.' + str.__str__(self).upper()
+
+    __repr__ = __str__
+
+
 def dec(t):
     if t is None:
         return None
+    if t[0] == 'S':
+        return Tag(t[1])
     if t[0] == 'x':                 # a value the library must refuse
         return tuple(t[1]) if isinstance(t[1], list) else t[1]
     return t[1] if t[0] == 's' else bytes.fromhex(t[1])
@@ -169,8 +188,10 @@ def generate(seed, idx, tier):
     rng = prng.stream(seed, PROP, idx, 'scenario')
     # 'data-named-meta': a data file whose name happens to end in _metadata;
     # every update then says is_metadata_file=False explicitly
+    # 'foreign': a file written by another tool (repository test data)
     target = rng.choice(('data', 'data', 'data', '_metadata', '_metadata',
-                         '_common_metadata', 'part', 'data-named-meta'))
+                         '_common_metadata', 'part', 'data-named-meta',
+                         'foreign'))
     initial = {}
     used = set()
     # 4% of the histories carry values of 100 kB / 250 kB (plain ones, and
@@ -186,11 +207,16 @@ def generate(seed, idx, tier):
         k = gen_key(rng, used)
         used.add(as_bytes(k))
         v = fit(gen_value(rng, plain=big))
-        initial[len(initial)] = [enc(k), enc(v)]
+        ek, ev = enc(k), enc(v)
+        if rng.random() < 0.1 and ev[0] == 's':
+            ev = ['S', ev[1]]           # given as a str subclass instance
+        if rng.random() < 0.05 and ek[0] == 's':
+            ek = ['S', ek[1]]
+        initial[len(initial)] = [ek, ev]
         model[as_bytes(k)] = as_bytes(v)
     updates = []
     cat_append = target == 'data' and rng.random() < 0.3
-    wipe = not cat_append and rng.random() < 0.05
+    wipe = not cat_append and target != 'foreign' and rng.random() < 0.05
     wipe_at = rng.randrange(0, 3)
     for _ in range(rng.randrange(1, 7) + (2 if wipe else 0)):
         upd = []
@@ -281,6 +307,7 @@ def generate(seed, idx, tier):
             'target': target, 'initial': list(initial.values()),
             'updates': updates, 'nrows': rng.randrange(1, 20),
             'cat_append': cat_append,
+            'foreign_file': rng.choice(FOREIGN),
             'local': rng.random() < 0.1,
             'fseed': rng.randrange(2 ** 31),
             'codec': rng.choice((None, 'SNAPPY', 'GZIP'))}
@@ -352,8 +379,23 @@ def _execute(case, fs, res, cnt, probes, bump, violation, fw,
         initial[dec(k)] = dec(v)
     target = case['target']
     is_meta = target in ('_metadata', '_common_metadata')
+    foreign = target == 'foreign'
     try:
-        if target in ('data', 'data-named-meta'):
+        if foreign:
+            import os
+            path = D.ds_path(fs, case['foreign_file'])
+            src = os.path.join('/repo/test-data', case['foreign_file'])
+            with open(src, 'rb') as f:
+                blob = f.read()
+            if D.is_local(fs):
+                with open(path, 'wb') as f:
+                    f.write(blob)
+            else:
+                fs.files[path] = bytearray(blob)
+            readpath = path
+            initial = {}
+            bump(probes, 'file_written_by_another_tool')
+        elif target in ('data', 'data-named-meta'):
             path = D.ds_path(fs, 'one.parq' if target == 'data'
                              else 'sensors_metadata')
             if target != 'data':
@@ -391,6 +433,13 @@ def _execute(case, fs, res, cnt, probes, bump, violation, fw,
         return res
     base = D.read_all(fs, readpath)
     model = {as_bytes(k): as_bytes(v) for k, v in initial.items()}
+    if foreign:
+        model = {k: v for k, v in M.kv(M.footer(fs.files[path])['fmd'])
+                 if k not in RESERVED}
+        if any(v is None for v in model.values()):
+            res.update(verdict='discard', digest='discard', evals=0,
+                       discard='foreign file with a value-less key')
+            return res
     h = hashlib.blake2b(digest_size=8)
     trail = []
     types = set()
@@ -402,7 +451,7 @@ def _execute(case, fs, res, cnt, probes, bump, violation, fw,
                   -1)
         res['digest'] = 'bad-write'
         return res
-    err = kv_mismatch(r0['fmd'], model)
+    err = kv_mismatch(r0['fmd'], model, foreign)
     if err:
         violation('C16/write-time-metadata-not-verbatim', err, -1)
     err = api_mismatch(fs, readpath if not is_meta and target != 'part'
@@ -413,8 +462,16 @@ def _execute(case, fs, res, cnt, probes, bump, violation, fw,
 
     if not D.is_local(fs):
         fw.open = fs.builtin_open
+    # a handle kept open all along: the same updates are applied to it in
+    # memory (util.update_custom_metadata), and its key-value view - read
+    # once beforehand - has to follow
     try:
-        wiped = False
+        lpf = D.open_pf(path, fs)
+        lpf.key_value_metadata
+    except Exception:
+        lpf = None
+    try:
+        wiped = foreign
         for ui, upd in enumerate(case['updates']):
             before = bytes(fs.files[path])
             rb = parse(before, is_meta)
@@ -558,6 +615,18 @@ def _execute(case, fs, res, cnt, probes, bump, violation, fw,
                 violation('C16/keys-differ-from-model',
                           'update %d through ParquetFile: %s' % (ui, err), ui)
                 break
+            if lpf is not None:
+                from fastparquet.util import update_custom_metadata
+                try:
+                    update_custom_metadata(lpf, arg)
+                    err = api_mismatch(fs, path, model, pf=lpf)
+                except Exception as e:
+                    err = '%s: %s' % (type(e).__name__, e)
+                if err:
+                    violation('C16/kept-handle-view-differs-from-model',
+                              'update %d applied to a handle kept open: %s'
+                              % (ui, err), ui)
+                    break
             # (5) data still reads back
             try:
                 snap = D.read_all(fs, readpath)
@@ -616,9 +685,9 @@ def kv_mismatch(fmd, model, pandas_removed=False):
     return None
 
 
-def api_mismatch(fs, path, model):
+def api_mismatch(fs, path, model, pf=None):
     try:
-        kvm = D.open_pf(path, fs).key_value_metadata
+        kvm = (pf or D.open_pf(path, fs)).key_value_metadata
     except Exception as e:
         return 'open fails: %s: %s' % (type(e).__name__, e)
     got = {}
